@@ -188,12 +188,25 @@ TripletPick(dx, dy, policy) ==
                             ELSE LET R == C \ {lo} IN CHOOSE i \in R : \A j \in R : TKey(i) <= TKey(j)
 
 ---------------------------------------------------------------------------
-(* 5.1  bboxBitmap: 4 * floor((numGlyphs + 31) / 32) bytes, glyph 0 is the *)
-(* most significant bit of the first byte.                                 *)
-BitmapLen(n) == 4 * ((n + 31) \div 32)
+(* 5.1  bboxBitmap.  The recommendation: "The total number of bytes in      *)
+(* bboxBitmap is equal to 4 * floor((numGlyphs + 31) / 32).  The bits are  *)
+(* packed so that glyph number 0 corresponds to the most significant bit   *)
+(* of the first byte".  In words: a whole number of 32-bit words, the       *)
+(* fewest that hold one bit per glyph - so 32 glyphs need ONE word (4      *)
+(* bytes), 33 need two, 64 need two, 0 need none.  The bbox stream size    *)
+(* of the table header covers the bitmap AND the bounding boxes, so this   *)
+(* length is the only thing that tells a decoder where the first explicit  *)
+(* bounding box starts.                                                    *)
+(* The rule is stated twice, the way the two sides use it: the decoder     *)
+(* (ParseGlyfTable) takes the formula of the text, the encoder             *)
+(* (BitmapBytes) counts the started groups of 32 glyphs.  BitmapLenRule    *)
+(* below is the lemma that they are the same function (TLC: n in 0..130).  *)
+BitmapLen(n) == 4 * ((n + 31) \div 32)                                  \* decoder: the text's formula
+BitmapWords(n) == IF n % 32 = 0 THEN n \div 32 ELSE n \div 32 + 1        \* started groups of 32 glyphs
+EncBitmapLen(n) == 4 * BitmapWords(n)                                   \* encoder
 BitmapGet(bm, g) == IF g \div 8 < Len(bm) THEN (bm[g \div 8 + 1] \div 2 ^ (7 - (g % 8))) % 2 ELSE -1
 BitmapBytes(bits) ==          \* bits: sequence of 0/1, one per glyph
-  [k \in 1 .. BitmapLen(Len(bits)) |->
+  [k \in 1 .. EncBitmapLen(Len(bits)) |->
      LET B(j) == IF 8 * (k - 1) + j + 1 <= Len(bits) THEN bits[8 * (k - 1) + j + 1] ELSE 0 IN
      128 * B(0) + 64 * B(1) + 32 * B(2) + 16 * B(3) + 8 * B(4) + 4 * B(5) + 2 * B(6) + B(7)]
 
@@ -203,10 +216,16 @@ BitmapBytes(bits) ==          \* bits: sequence of 0/1, one per glyph
 (* box <<xMin, yMin, xMax, yMax>>, components.                             *)
 EmptyRec == [kind |-> "empty", ends |-> <<>>, pts |-> <<>>, instr |-> <<>>,
              bbox |-> <<0, 0, 0, 0>>, comps |-> <<>>]
+\* tight bounding box of a point sequence (one pass, so that glyphs of several hundred points stay cheap)
+RECURSIVE BBoxFrom(_, _, _)
+BBoxFrom(pts, k, b) ==
+  IF k > Len(pts) THEN b
+  ELSE LET x == pts[k][1]  y == pts[k][2] IN
+       BBoxFrom(pts, k + 1, <<IF x < b[1] THEN x ELSE b[1], IF y < b[2] THEN y ELSE b[2],
+                              IF x > b[3] THEN x ELSE b[3], IF y > b[4] THEN y ELSE b[4]>>)
 BBoxOf(pts) ==
   IF pts = <<>> THEN <<0, 0, 0, 0>>
-  ELSE LET xs == {pts[k][1] : k \in DOMAIN pts}  ys == {pts[k][2] : k \in DOMAIN pts} IN
-       <<MinOf(xs), MinOf(ys), MaxOf(xs), MaxOf(ys)>>
+  ELSE BBoxFrom(pts, 2, <<pts[1][1], pts[1][2], pts[1][1], pts[1][2]>>)
 BBoxAt(s, at) == <<I16At(s, at), I16At(s, at + 2), I16At(s, at + 4), I16At(s, at + 6)>>
 XMinOf(rec) == IF rec.kind = "empty" THEN 0 ELSE rec.bbox[1]
 
@@ -539,4 +558,30 @@ B128RoundTrip(v) ==
   LET e == EncB128(v) IN
   /\ Len(e) \in 1 .. 5 /\ e[1] # 128
   /\ DecB128At(e, 0) = [ok |-> TRUE, hi |-> v[1], lo |-> v[2], used |-> Len(e)]
+
+\* The bboxBitmap length rule for a glyph count n: encoder and decoder use the same length; it is
+\* the least multiple of 4 bytes with a bit for every glyph (in particular n = 32 k takes 4 k bytes,
+\* not 4 (k + 1)); every glyph's bit is readable and reads back what was written, padding bits are
+\* zero and the bit after the last word does not exist; a table of n glyphs whose LAST glyph carries
+\* the only explicit bounding box is split so that the bounding box stream is exactly those 8 bytes.
+BitmapLenRule(n) ==
+  LET bits == [g \in 1 .. n |-> IF g = 1 \/ g = n \/ g % 32 = 0 THEN 1 ELSE 0]
+      bm == BitmapBytes(bits)
+      dot == [kind |-> "simple", ends |-> <<0>>, pts |-> <<<<7, 9, 1>>>>, instr |-> <<>>,
+              bbox |-> <<6, 8, 10, 11>>, comps |-> <<>>]
+      recs == [g \in 1 .. n |-> IF g = n THEN dot ELSE EmptyRec]
+      S == EncGlyf(recs, [trip |-> "ref", u16 |-> "short", bbox |-> "needed"])
+      pg == ParseGlyfTable(GlyfTableBytes(S, n, 0, 0, <<>>))
+  IN /\ BitmapLen(n) = EncBitmapLen(n)
+     /\ BitmapLen(n) % 4 = 0 /\ 8 * BitmapLen(n) >= n
+     /\ (n > 0 => 8 * (BitmapLen(n) - 4) < n) /\ (n = 0 => BitmapLen(n) = 0)
+     /\ BitmapLen(n) = 4 * Cardinality({g \div 32 : g \in 0 .. (n - 1)})
+     /\ (n % 32 = 0 => BitmapLen(n) = n \div 8)
+     /\ Len(bm) = BitmapLen(n)
+     /\ \A g \in 0 .. (n - 1) : BitmapGet(bm, g) = bits[g + 1]
+     /\ \A g \in n .. (8 * Len(bm) - 1) : BitmapGet(bm, g) = 0
+     /\ BitmapGet(bm, 8 * Len(bm)) = -1
+     /\ pg.ok /\ pg.n = n /\ Len(pg.S.bm) = BitmapLen(n) /\ pg.S = S
+     /\ Len(pg.S.bb) = (IF n > 0 THEN 8 ELSE 0)
+     /\ LET D == DecAll(pg.S, n) IN D.ok /\ D.recs = recs /\ D.cur = EndCur(S)
 =============================================================================
